@@ -170,7 +170,7 @@ func c13AllHang(op string, n int) {
 	if err != nil {
 		panic(err)
 	}
-	if err := ex.Start(context.Background()); err != nil {
+	if err := func() error { sc, end := startCtx(); defer end(); return ex.Start(sc) }(); err != nil {
 		panic(err)
 	}
 	defer ex.Stop(context.Background()) //nolint:errcheck
